@@ -147,3 +147,48 @@ Qed.
 Example concurrent_transition_overlaps :
   let durs := [30; 10] in exists d_old d_new, In d_old (old_run 1 1 durs) /\ In d_new (new_run false 1 1 durs) /\ istart d_new < iend d_old.
 Proof. eexists; eexists. vm_compute. split; [left; reflexivity|split; [left; reflexivity|reflexivity]]. Qed.
+
+(* ---- how much close() can leave behind (the size of finding F7): when close returns, FEWER THAN `limit` accepted events are still
+   unprocessed - for every workload, timeout setting, limit >= 1 and instant of the close call. (limit = 1: nothing is left: C06.) ---- *)
+Lemma filter_split_length {A} (f : A -> bool) l : (length (filter f l) + length (filter (fun x => negb (f x)) l) = length l)%nat.
+Proof. induction l as [|a l IH]; [reflexivity|]. cbn [filter]. destruct (f a); cbn [negb length]; lia. Qed.
+
+Lemma filter_ext_in' {A} (f g : A -> bool) l : (forall x, In x l -> f x = g x) -> filter f l = filter g l.
+Proof.
+  induction l as [|a l IH]; intros H; [reflexivity|]. cbn [filter]. rewrite (H a) by now left.
+  rewrite IH; [reflexivity|]. intros x Hx. apply H. now right.
+Qed.
+
+Theorem close_leaves_fewer_than_limit limit tau errdelay its t_close :
+  (1 <= limit)%nat ->
+  let ds := run limit tau errdelay its in
+  (length its < done_at ds (t_drop limit ds t_close) + limit)%nat.
+Proof.
+  intros Hl. cbn zeta. set (ds := run limit tau errdelay its).
+  assert (Hlen : length ds = length its) by apply schedule_length.
+  rewrite <- Hlen. unfold t_drop. set (tc := t_cancel ds t_close).
+  destruct (fold_min_in (finish_time ds) (filter (fun t => (in_flight_at ds t <? limit)%nat) (candidates ds tc))) as [E|Hin].
+  - (* the stream is dropped when everything has finished *)
+    rewrite E. unfold done_at. rewrite (filter_all_length (fun d => iend d <=? finish_time ds) ds).
+    + lia.
+    + intros d Hd. apply Z.leb_le. apply fold_max_ge. now apply in_map.
+  - set (t := fold_right Z.min (finish_time ds) (filter (fun t => (in_flight_at ds t <? limit)%nat) (candidates ds tc))) in *.
+    apply filter_In in Hin. destruct Hin as [Hc Hf]. apply Nat.ltb_lt in Hf.
+    assert (Htc : tc <= t).
+    { unfold candidates in Hc. destruct Hc as [<-|Hc]; [lia|]. apply filter_In in Hc. destruct Hc as [_ Hc]. apply Z.leb_le in Hc. exact Hc. }
+    assert (Hs : forall d, In d ds -> istart d <= t).
+    { intros d Hd. assert (istart d <= last_start ds) by (apply fold_max_ge; now apply in_map). unfold tc, t_cancel in Htc. lia. }
+    unfold done_at. pose proof (filter_split_length (fun d => iend d <=? t) ds) as Hsp.
+    assert (Hfl : filter (fun d => negb (iend d <=? t)) ds = filter (fun d => (istart d <=? t) && (t <? iend d)) ds).
+    { apply filter_ext_in'. intros d Hd. specialize (Hs d Hd).
+      destruct (Z.leb_spec (iend d) t), (Z.leb_spec (istart d) t), (Z.ltb_spec t (iend d)); cbn; try reflexivity; lia. }
+    cbv beta in Hsp. rewrite Hfl in Hsp. unfold in_flight_at in Hf. lia.
+Qed.
+
+(* the same at the Multi level: every listener is left with fewer than `limit` unprocessed events when Multi::close returns at its OWN
+   drop instant; (at the common return instant, which is later, it can only have processed more: done_at is monotone) *)
+Lemma done_at_mono ds t t' : t <= t' -> (done_at ds t <= done_at ds t')%nat.
+Proof.
+  intros H. unfold done_at. induction ds as [|d ds IH]; [cbn; lia|]. cbn [filter].
+  destruct (Z.leb_spec (iend d) t), (Z.leb_spec (iend d) t'); cbn [length]; lia.
+Qed.
